@@ -22,6 +22,24 @@ KEM_INSTR = [
     {"path": "pkg/kube_events_manager/factory.go", "seams": {"FactoryStore.Start": "zzSeamFactoryStart", "FactoryStore.Stop": "zzSeamFactoryStop"}},
 ]
 
+# the whole operator under the scheduler (level 2): queues, events handler, controllers,
+# schedule manager and the kube events manager are instrumented; informers, hook processes,
+# HTTP server, metrics loops and cron's goroutine are behind seams
+OP_EXTRA = {"pkg/executor": ["zz_verif_seam.go"], "pkg/schedule_manager": ["zz_verif_seam.go"], "pkg/kube_events_manager": ["zz_verif_hub.go"]}
+OP_INSTR = {"files": KEM_INSTR + [
+    {"path": "pkg/executor/executor.go", "calls": {"e.cmd.Run": "@zzCmdRun", "e.cmd.Output": "@zzCmdOutput"}},
+    {"path": "pkg/shell-operator/operator.go", "time": True, "conc": True,
+     "calls": {"tqs.NewNamedQueue": "@zzNewNamedQueue", "op.TaskQueues.NewNamedQueue": "@zzNewNamedQueue",
+               "op.APIServer.Start": "@zzNoopAPIStart", "op.runMetrics": "@zzNoopRunMetrics", "op.ScheduleManager.Start": "@zzNoopSchedStart"}},
+    {"path": "pkg/shell-operator/manager_events_handler.go", "conc": True},
+    {"path": "pkg/task/queue/task_queue.go", "sync": True, "time": True, "conc": True, "touch": ["started"]},
+    {"path": "pkg/task/queue/queue_set.go", "sync": True, "time": True, "conc": True},
+    {"path": "pkg/hook/controller/kubernetes_bindings_controller.go", "sync": True, "conc": True},
+    {"path": "pkg/hook/controller/schedule_bindings_controller.go", "sync": True},
+    {"path": "pkg/schedule_manager/schedule_manager.go", "conc": True},
+    {"path": "pkg/utils/exponential_backoff/delay.go", "calls": {"rand.Int64N": "vrt.Int64N"}},
+]}
+
 CHECKS = {
     "C05": {
         "level": "model_checking",
@@ -106,6 +124,18 @@ CHECKS = {
         "parts": [
             part("c01l1", "pkg/kube_events_manager", "TestVerifC01L1", ["zz_verif_c01_test.go"], shards={"quick": 8, "thorough": 16},
                  extra={"pkg/kube_events_manager": ["zz_verif_hub.go"]}, instrument={"files": KEM_INSTR}, gomaxprocs=1),
+        ],
+    },
+    "C03": {
+        "level": "model_checking",
+        "engine": "E1",
+        "technique": "stateless model checking of the assembled operator under a controlled scheduler (deviation-bounded DFS), virtual clock",
+        "level_text": "The real ShellOperator.Start() (task queues and their worker loops, queue set, events handler, hook and bindings controllers, schedule manager, kube events manager) runs under the controlled scheduler with a virtual clock; hook processes, informers, HTTP server and cron's goroutine are behind seams. Two hooks with kubernetes and schedule bindings in `main` and `q2`, an environment thread producing 2 ticks and 2 changes per namespace, three variants (no stall, a q2 hook that never returns, a main hook that fails forever). After start-up (run on the default schedule; C06 explores it) ALL schedules with at most 2 (quick) / 3 (thorough) deviations from the deterministic default scheduler (delay bounding: keep the running thread, else lowest thread id; every other choice, pre-emptive or not, costs one) are executed. Oracle per execution: handler intervals of one queue never overlap, the task handed over is the queue's head, every context runs in the queue its binding names, per-binding event order, and the queue that is not stalled executes all its tasks.",
+        "level_note": "Trusted: scheduler (vrt), hub and process stand-in as environment models, fake cluster. Scheduling points: lock/channel/select/timer operations and listed racy fields; sequential consistency.",
+        "rule": "DFS over thread choices at scheduling points with at most N pre-emptions per stall variant; non-trivial = execution with >= 1 pre-emption; distinct = distinct sequence of (hook, queue, contexts) executions",
+        "parts": [
+            part("c03", "pkg/shell-operator", "TestVerifC03", ["zz_verif_c03_test.go", "zz_verif_fixture_test.go"], shards={"quick": 12, "thorough": 16},
+                 extra=OP_EXTRA, instrument=OP_INSTR, gomaxprocs=1),
         ],
     },
 }
